@@ -2999,7 +2999,7 @@ namespace gch
       small_vector_base&
       move_assign_default (small_vector_base<Allocator, LessEqualI>&& other)
         noexcept (std::is_nothrow_move_assignable<value_ty>::value
-              &&  std::is_nothrow_move_constructible<value_ty>::value)
+              &&  is_explicitly_nothrow_move_insertable<value_ty>::value)
       {
         // We only move the allocation pointer over if it has strictly greater capacity than
         // the inline capacity of `*this` because allocations can never have a smaller capacity
@@ -3203,7 +3203,7 @@ namespace gch
       GCH_CPP20_CONSTEXPR
       void
       move_initialize (small_vector_base<Allocator, LessEqualI>&& other)
-        noexcept (std::is_nothrow_move_constructible<value_ty>::value)
+        noexcept (is_explicitly_nothrow_move_insertable<value_ty>::value)
       {
         if (InlineCapacity < other.get_capacity ())
         {
@@ -3659,7 +3659,7 @@ namespace gch
       GCH_CPP20_CONSTEXPR
       ptr
       uninitialized_move (ptr first, ptr last, ptr d_first)
-        noexcept (std::is_nothrow_move_constructible<value_ty>::value)
+        noexcept (is_explicitly_nothrow_move_insertable<value_ty>::value)
       {
         return uninitialized_copy (std::make_move_iterator (first),
                                    std::make_move_iterator (last),
@@ -4462,7 +4462,7 @@ namespace gch
       GCH_CPP20_CONSTEXPR
       void
       swap_elements (small_vector_base& other)
-        noexcept (std::is_nothrow_move_constructible<value_ty>::value
+        noexcept (is_explicitly_nothrow_move_insertable<value_ty>::value
 #ifdef GCH_LIB_IS_SWAPPABLE
               &&  std::is_nothrow_swappable<value_ty>::value
 #else
@@ -4482,7 +4482,7 @@ namespace gch
       GCH_CPP20_CONSTEXPR
       void
       swap_default (small_vector_base& other)
-        noexcept (std::is_nothrow_move_constructible<value_ty>::value
+        noexcept (is_explicitly_nothrow_move_insertable<value_ty>::value
 #ifdef GCH_LIB_IS_SWAPPABLE
               &&  std::is_nothrow_swappable<value_ty>::value
 #else
